@@ -747,6 +747,7 @@ pub fn leaf(max_bits: usize) -> BoxedStrategy<Leaf> {
         1 => (any::<u16>(), proptest::collection::vec(any::<u8>(), 0..60)).prop_map(|(u, v)| Leaf::SparseMulti(u, v)),
         4 => (small_shape(), proptest::option::of(crate::props::c03::mag())).prop_map(|(s, t)| Leaf::RL(s, t)),
         2 => small_vals().prop_map(Leaf::Core),
+        1 => (0usize..60, 13u8..=64, prop_oneof![Just(Dist::Uniform), Just(Dist::Pow2), Just(Dist::Outlier)], any::<u64>()).prop_map(|(l, w, d, s)| Leaf::Core(Vals::Recipe(l, w, d, s))),
         3 => small_vals().prop_map(Leaf::WM),
     ]
     .boxed()
